@@ -137,8 +137,10 @@ def add_query_argument(url, name, value=None, quote=True):
     if value is True or value is None:
         arg = name
     else:
+        value = str(value)
+
         if quote:
-            value = unshadowed_quote(str(value))
+            value = unshadowed_quote(value)
 
         arg = name + "=" + value
 
